@@ -786,7 +786,7 @@ T_CALLS = [("transform", "CTransform"), ("deriv", "CDeriv"), ("deriv2", "CDeriv2
 def extract_transforms(ctx: Ctx):
     src = (SRC / "rtransform.py").read_text()
     tree = ast.parse(src)
-    units, sets, guard = [], {}, {}
+    units, sets, guard, uses = [], {}, {}, {}
     stateful = {c for c, _ in T_CLASSES}
     for cls in [n for n in tree.body if isinstance(n, ast.ClassDef)]:
         fns = {n.name: n for n in cls.body if isinstance(n, ast.FunctionDef)}
@@ -850,10 +850,32 @@ def extract_transforms(ctx: Ctx):
                 if len(calls) != 1 or not (isinstance(first, ast.Expr) and first.value is calls[0] and ast.unparse(calls[0]) == f"self.set_maximum_parameter_b({arg})"):
                     raise Unsupported(f"{cname}.{meth}: set_maximum_parameter_b is not the first statement applied to the argument")
             sets[(coq, ccoq)] = bool(calls)
-    return sets, guard, units
+        # which methods' results depend on the scale: they read self.b / self._b, directly or through other methods of
+        # the object (set_maximum_parameter_b's own test of b does not count)
+        reads, callees = {}, {}
+        for fname, fn in fns.items():
+            if fname in ("__init__", "set_maximum_parameter_b", "b"):
+                continue
+            reads[fname] = any(isinstance(n, ast.Attribute) and isinstance(n.value, ast.Name) and n.value.id == "self" and n.attr in ("b", "_b")
+                               and isinstance(n.ctx, ast.Load) for n in ast.walk(fn))
+            callees[fname] = {n.func.attr for n in ast.walk(fn) if isinstance(n, ast.Call) and isinstance(n.func, ast.Attribute)
+                              and isinstance(n.func.value, ast.Name) and n.func.value.id == "self"} - {"set_maximum_parameter_b"}
+            for n in ast.walk(fn):
+                if isinstance(n, ast.Call) and isinstance(n.func, ast.Name) and n.func.id in ("getattr", "vars") and any(
+                        isinstance(a, ast.Name) and a.id == "self" for a in n.args):
+                    raise Unsupported(f"{cname}.{fname} inspects self dynamically (line {n.lineno})")
+        changed = True
+        while changed:
+            changed = False
+            for fname in reads:
+                if not reads[fname] and any(reads.get(c, False) for c in callees[fname]):
+                    reads[fname] = changed = True
+        for meth, ccoq in T_CALLS:
+            uses[(coq, ccoq)] = bool(reads.get(meth, False))
+    return sets, guard, units, uses
 
 
-def coq_gen_text(cfg, libcache, sets, guard):
+def coq_gen_text(cfg, libcache, sets, guard, uses):
     def table(field, ctor=None):
         rows = []
         for (m, k), v in cfg.items():
@@ -867,6 +889,10 @@ def coq_gen_text(cfg, libcache, sets, guard):
          f"  c_hit := {table('hit')};", f"  c_libcache := {'true' if libcache else 'false'} |}}.",
          "Definition tcfg_src : tcfg := {|", "  t_sets := fun t c => match t, c with"]
     for (tk, c), v in sets.items():
+        t.append(f"    | {tk}, {c} => {'true' if v else 'false'}")
+    t.append("    end;")
+    t.append("  t_uses := fun t c => match t, c with")
+    for (tk, c), v in uses.items():
         t.append(f"    | {tk}, {c} => {'true' if v else 'false'}")
     t.append("    end;")
     t.append("  t_guard := fun t => match t with " + " ".join(f"| {tk} => {'true' if g else 'false'}" for tk, g in guard.items()) + " end |}.")
@@ -1555,6 +1581,8 @@ def gen_tcase(rng):
         if rng.random() < 0.05:
             x = [-rng.randint(0, 3) for _ in range(ln)]
         calls.append((meth, x))
+        if len(calls) >= 2 and rng.random() < 0.3:  # the same call once more, later in the object's life
+            calls.append(rng.choice(calls[:-1]))
     return ci, b0, calls
 
 
@@ -1573,9 +1601,18 @@ def transform_tie(ctx: Ctx, n, rep):
         cname, coq = T_CLASSES[ci]
         obj = t_make(RT, cname, rmin, rmax, b0)
         bs, errs, ok = [], [], True
+        seen = {}
         for j, (meth, x) in enumerate(calls):
             bprev = obj.b
             st, val = t_call(obj, meth, x)
+            if st == "ok":
+                j0, v0 = seen.setdefault((meth, tuple(x)), (j, val))
+                if v0.tobytes() != val.tobytes():
+                    key = f"{cname}({rmin},{rmax},b={b0}); " + "; ".join(f"{mm}({xx})" for mm, xx in calls[:j + 1])
+                    rep.add("same_call_same_result", j + 1, key, [float(v) for v in np.ravel(val)[:4]],
+                            f"{key}: call {j} repeats call {j0} ({meth}({x})) on the same object and returns {np.ravel(val)[:4]} instead of {np.ravel(v0)[:4]}: "
+                            f"a scale inferred from an earlier grid was used but not kept",
+                            {"class": cname, "rmin": rmin, "rmax": rmax, "b": b0, "calls": calls[:j + 1], "repeat": [j0, j], "kind": "transform_repeat"})
             b = b_as_int(obj.b)
             key = f"{cname}({rmin},{rmax},b={b0}); " + "; ".join(f"{mm}({xx})" for mm, xx in calls[:j + 1])
             rp = {"class": cname, "rmin": rmin, "rmax": rmax, "b": b0, "calls": calls[:j + 1], "kind": "transform"}
@@ -1615,6 +1652,24 @@ def transform_tie(ctx: Ctx, n, rep):
         key = f"{cname}(b={b0}); " + "; ".join(f"{mm}({xx})" for mm, xx in calls)
         rep.add("corr_b_machine", len(calls), key, str(bs), f"{key}: observed b after each call {bs}, raised {errs}; the state machine extracted from the source disagrees",
                 {"class": cname, "b": b0, "calls": calls, "observed_b": bs, "raised": errs}, found=False)
+    # directed sweep: m1(x); m2(y); m1(x) for every class, every ordered pair of methods, b inferred and explicit, grids with
+    # different maxima (integer and non-integer): the first and the third call must agree
+    grids = [([0, 1, 2, 3], [0, 2, 4, 6, 8]), ([0.5, 1.25, 2.75], [0.25, 0.75]), (list(range(12)), list(range(30)))]
+    for cname, _ in T_CLASSES:
+        for m1, _c1 in T_CALLS:
+            for m2, _c2 in T_CALLS:
+                for b0 in (None, 3):
+                    for x, y in grids:
+                        calls = [(m1, x), (m2, y), (m1, x)]
+                        obj = t_make(RT, cname, rmin, rmax, b0)
+                        res = [t_call(obj, mm, xx) for mm, xx in calls]
+                        ctx.case(("tfrepeat", cname, m1, m2, b0 is None))
+                        if res[0][0] == "ok" and res[2][0] == "ok" and res[0][1].tobytes() != res[2][1].tobytes():
+                            key = f"{cname}({rmin},{rmax},b={b0}); " + "; ".join(f"{mm}({xx})" for mm, xx in calls)
+                            rep.add("same_call_same_result", 3, key, [float(v) for v in np.ravel(res[2][1])[:4]],
+                                    f"{key}: the third call repeats the first on the same object and returns {np.ravel(res[2][1])[:4]} instead of "
+                                    f"{np.ravel(res[0][1])[:4]}: the first call used a scale inferred from its grid without keeping it",
+                                    {"class": cname, "rmin": rmin, "rmax": rmax, "b": b0, "calls": [list(c) for c in calls], "repeat": [0, 2], "kind": "transform_repeat"})
     # direct order-independence test: same calls, two orders, explicit b
     for i in range(n // 4):
         ci, b0, calls = gen_tcase(ctx.rng)
@@ -1983,13 +2038,14 @@ def run(ctx: Ctx):
     except Unsupported as e:
         gen_problems.append(("gen_atomgrid", f"atomgrid.py: {e}"))
     try:
-        sets, guard, u = extract_transforms(ctx)
+        sets, guard, u, uses = extract_transforms(ctx)
         units += u
     except Unsupported as e:
         gen_problems.append(("gen_transforms", f"rtransform.py: {e}"))
         sets = {(t, c): not (t == "TLinearInf" and c in ("CDeriv2", "CDeriv3")) for _, t in T_CLASSES for _, c in T_CALLS}
+        uses = dict(sets)
         guard = {t: True for _, t in T_CLASSES}
-    ctx.gen("C19_gen.v", coq_gen_text(cfg, libcache, sets, guard), units)
+    ctx.gen("C19_gen.v", coq_gen_text(cfg, libcache, sets, guard, uses), units)
     for ob, text in gen_problems:
         # reported after the dynamic search below had a chance to find a concrete failing input
         ctx.notes.append(f"{ob}: {text}; the specification itself (copy at the cache boundary) is used for this part of the model")
@@ -2136,7 +2192,7 @@ def run(ctx: Ctx):
 
     # ---------------------------------------------------------------- transforms
     nt = transform_tie(ctx, 300 if ctx.quick else 4000, rep)
-    for c in rep.concrete({"b_fixed_is_order_independent"}):
+    for c in rep.concrete({"same_call_same_result", "b_fixed_is_order_independent"}):
         add_cand("transform", c)
     for ob, text in rep.flush(ctx).items():
         broken.append((ob, text, "transform" if ob == "corr_b_machine" else "angular"))
@@ -2172,7 +2228,7 @@ def run(ctx: Ctx):
                        "transform objects: 1-7 random calls (transform/deriv/deriv2/deriv3/inverse, integer arrays incl. all-zero and negative) with b inferred or explicit, "
                        "b after every call and raised errors compared with the extracted state machine in Coq, every result compared with a fresh object of that b")
     ctx.cov["cfg_src"] = {f"{m}.{KNAME[k]}": v for (m, k), v in cfg.items()}
-    ctx.cov["tcfg_src"] = {"sets_b": {f"{t}.{c}": v for (t, c), v in sets.items()}, "guard": guard}
+    ctx.cov["tcfg_src"] = {"sets_b": {f"{t}.{c}": v for (t, c), v in sets.items()}, "uses_b": {f"{t}.{c}": v for (t, c), v in uses.items()}, "guard": guard}
     ctx.cov["transform_cases"] = nt
     ctx.trusted += [
         "hand model coq/C19/C19_model.v (heap of symbolic arrays, caches, objects; state machine of b), tied by exact history correspondence on every run",
@@ -2210,6 +2266,16 @@ def replay(rp):
         arr, same = replay_witness(impl, spec_n, m, d, k, rp["history"])
         print("python:", rp.get("python"))
         print("observed fingerprint [sum, first]:", fingerprint(arr), "| equals the shipped data:", same)
+        return 0 if same else 1
+    if kind == "transform_repeat":
+        import grid.rtransform as RT
+
+        obj = t_make(RT, rp["class"], rp["rmin"], rp["rmax"], rp["b"])
+        res = [t_call(obj, meth, x) for meth, x in rp["calls"]]
+        i, j = rp["repeat"]
+        print(f"call {i}: {rp['calls'][i]} -> {res[i][1] if res[i][0] == 'ok' else res[i][0]}")
+        print(f"call {j}: {rp['calls'][j]} -> {res[j][1] if res[j][0] == 'ok' else res[j][0]}")
+        same = res[i][0] == res[j][0] and (res[i][0] != "ok" or res[i][1].tobytes() == res[j][1].tobytes())
         return 0 if same else 1
     if kind == "transform":
         import grid.rtransform as RT
